@@ -24,12 +24,15 @@ THEOREMS = [
 LEAN_MODULES = ["PorepyVerif.C24.Props"]
 AUDIT = "PorepyVerif/C24/Audit.lean"
 DRIVER = "PorepyVerif/C24/Driver.lean"
-N = {"quick": 250, "thorough": 5000}
-RULE = ("histories of 1-30 calls (add_subdomains / add_interface / remove_subdomain / replace_subdomains_and_interfaces, "
-        "interleaved with queries and copy()) on a MixedDimensionalGrid over 2-12 tiny grids of dimension 0-3 (PointGrid, CartGrid) "
-        "and mortar grids of dimension 0-2 created in shuffled order; ~85% of the calls are valid, the rest are the calls the "
-        "container must reject (present grid, duplicate, existing interface, wrong pair length, co-dimension 3, empty container, "
-        "absent subdomain); interfaces between equal dimensions, parallel interfaces and interfaces from a subdomain to itself occur; "
+N = {"quick": 400, "thorough": 12000}
+RULE = ("family 'mock' (88%): histories of 1-30 calls (add_subdomains / add_interface / remove_subdomain / "
+        "replace_subdomains_and_interfaces with sd_map of 0-3 items and/or interface_map, interleaved with queries and copy()) on a "
+        "MixedDimensionalGrid over 2-12 tiny grids of dimension 0-3 (PointGrid, CartGrid) and mortar grids of dimension 0-2, created in an order "
+        "unrelated to the order of insertion; 75-100% of the calls are valid, the rest are the calls the container must reject (present grid, "
+        "grid listed twice, existing interface, wrong pair length, co-dimension 3, empty container, absent subdomain, absent higher-dimensional grid) "
+        "plus, as last call, an accepted-but-ill-formed add_interface; equal-dimensional, parallel and self interfaces occur. "
+        "family 'real' (12%): the grids / mortar grids (real projections) of a 2-d Cartesian md-grid with two crossing fractures are inserted in random "
+        "order, then 1-d grids are replaced by refinements, the 0-d grid by a copy, mortar grids refined via interface_map, subdomains removed. "
         "non-trivial = at least one removal or replacement of a subdomain that carries an interface; distinct = distinct op sequences")
 TRUSTED = [
     "modelled, not verified: python dict insertion order, np.argsort / np.hstack inside argsort_grids, object identity = creation id",
@@ -83,6 +86,10 @@ class _World:
         np, pp = P["np"], P["pp"]
         self.pp = pp
         self.log = []
+        self.real = case.get("family") == "real"
+        if self.real:
+            self._init_real(case)
+            return
         self.grids = []
         for d in case["sd_dims"]:
             g = pp.PointGrid(np.zeros(3)) if d == 0 else pp.CartGrid(np.array([1] * d))
@@ -99,6 +106,48 @@ class _World:
             m.gindex = self.sd
             self.mortars.append(m)
         self.midx = {m: k for k, m in enumerate(self.mortars)}
+        self.face_cells = [("face_cells", k) for k in range(len(self.mortars))]
+        self._finish()
+
+    def _init_real(self, case):
+        """2-d Cartesian md-grid with two crossing fractures (real geometry, real mortar projections);
+        its grids / mortar grids are taken over in creation order, replacement grids are refinements
+        (1-d) or copies (0-d) created up-front in index order."""
+        np, pp = _PP["np"], _PP["pp"]
+        fracs = [np.array([[0, 2], [1, 1]]), np.array([[1, 1], [0, 2]])]
+        mdg0 = pp.meshing.cart_grid(fracs, np.array([2, 2]))
+        self.grids = sorted(mdg0._subdomain_data, key=lambda g: g.id)
+        self.mortars = sorted(mdg0._interface_data, key=lambda m: m.id)
+        for how, k in case["derived"]:
+            g = self.grids[k]
+            h = pp.refinement.refine_grid_1d(g, ratio=2) if how == "refine" else g.copy()
+            h.compute_geometry()
+            self.grids.append(h)
+        self.gidx = {g: k for k, g in enumerate(self.grids)}
+        self.midx = {m: k for k, m in enumerate(self.mortars)}
+        pairs = [[self.gidx[a], self.gidx[b]] for a, b in (mdg0._interface_to_subdomains[m] for m in self.mortars)]
+        if [g.dim for g in self.grids] != case["sd_dims"] or [m.dim for m in self.mortars] != case["if_dims"] or pairs != REAL_PAIRS:
+            raise RuntimeError("real family: md-grid structure differs from the recipe the generator assumes")
+        self.face_cells = [mdg0.interface_data(m)["face_cells"] for m in self.mortars]
+        for m in self.mortars:  # log the projection updates, then run the real ones
+            def wrap(m=m, um=m.update_mortar, up=m.update_primary, us=m.update_secondary):
+                def update_mortar(new_side_grids, tol=None):
+                    self.log.append(["mortar", self.itf(m)])
+                    return um(new_side_grids, tol)
+
+                def update_primary(g_new, g_old, tol=None):
+                    self.log.append(["primary", self.itf(m), self.sd(g_new), self.sd(g_old)])
+                    return up(g_new, g_old, tol)
+
+                def update_secondary(new_g, tol=None):
+                    self.log.append(["secondary", self.itf(m), self.sd(new_g)])
+                    return us(new_g, tol)
+                m.update_mortar, m.update_primary, m.update_secondary = update_mortar, update_primary, update_secondary
+            wrap()
+        self._finish()
+
+    def _finish(self):
+        np, pp = _PP["np"], _PP["pp"]
         # rank of boundary grids created from now on (class-level creation counter)
         anchor = pp.CartGrid(np.array([1]))
         self.bg_base = pp.BoundaryGrid(anchor).id + 1
@@ -127,7 +176,7 @@ class _World:
             mdg.add_subdomains(gs[0] if op.get("single") and len(gs) == 1 else gs)
         elif k == "add_interface":
             pair = [self.grids[i] for i in op["pair"]]
-            mdg.add_interface(self.mortars[op["i"]], tuple(pair) if op.get("tuple", True) else pair, ("face_cells", op["i"]))
+            mdg.add_interface(self.mortars[op["i"]], tuple(pair) if op.get("tuple", True) else pair, self.face_cells[op["i"]])
         elif k == "remove_subdomain":
             mdg.remove_subdomain(self.grids[op["g"]])
         elif k == "replace":
@@ -137,7 +186,12 @@ class _World:
                 imap = {}
                 for j, i in enumerate(op["intf_map"]):
                     m = self.mortars[i]
-                    sides = {P["sides"].LEFT_SIDE: self.side_proto[m.dim]}
+                    if self.real:
+                        sides = {sd: (pp.refinement.refine_grid_1d(g, ratio=2) if g.dim == 1 else g.copy()) for sd, g in m.side_grids.items()}
+                        for g in sides.values():
+                            g.compute_geometry()
+                    else:
+                        sides = {P["sides"].LEFT_SIDE: self.side_proto[m.dim]}
                     imap[m] = P["pp"].MortarGrid(m.dim, sides) if (j + i) % 2 else sides
             mdg.replace_subdomains_and_interfaces(sd_map=sd_map, interface_map=imap)
         elif k == "fork":
@@ -275,8 +329,13 @@ def compare(impl, model, case):
 
 
 # --------------------------------------------------------------------------------------- oracle
+_ORDER = {}
+
+
 def _key(x):
-    return (-x.dim, x.id)
+    """(dimension desc, creation order asc): grids and mortar grids are ordered by the order in which the case
+    created them (not by the id attribute the code sorts by), boundary grids by their id."""
+    return (-x.dim, _ORDER.get(id(x), ("z", x.id)))
 
 
 def oracle(case):
@@ -284,6 +343,9 @@ def oracle(case):
     shadow written in the vocabulary of the property (sets of present objects, unordered pairs)."""
     w = _World(case)
     pp = w.pp
+    _ORDER.clear()
+    _ORDER.update({id(g): ("a", k) for g, k in w.gidx.items()})
+    _ORDER.update({id(m): ("a", k) for m, k in w.midx.items()})
     present = []            # subdomain objects present
     pairs = {}              # interface object -> (a, b) unordered (as given / substituted)
     bg_of = {}              # subdomain -> boundary grid object
@@ -345,7 +407,7 @@ def oracle(case):
             got = type(e).__name__
         after = w.raw()
         # ---- known-defect shapes get their own keys (see known_findings.d/C24.json)
-        if kind == "add_interface" and got is not None and after != before:
+        if kind == "add_interface" and got is not None and expect is not None and after != before:
             i = op["i"]
             if after == dict(before, intf_data=before["intf_data"] + [i]):
                 return fail(k, f"add_interface raised {got} but left the interface in _interface_data (listed by interfaces(), no subdomain pair)",
@@ -396,7 +458,7 @@ def oracle(case):
         elif kind == "add_interface" and got is None:
             pairs[m] = (ps[0], ps[1])
             if_data[m] = mdg.interface_data(m)
-            if if_data[m].get("face_cells") != ("face_cells", op["i"]):
+            if if_data[m].get("face_cells") is not w.face_cells[op["i"]]:
                 return fail(k, "interface data does not hold the given face_cells map", "add_interface:data")
         elif kind == "remove_subdomain" and got is None:
             g = w.grids[op["g"]]
@@ -532,7 +594,81 @@ def _check_state(w, present, pairs, bg_of, sd_data, if_data, bg_data):
 
 
 # --------------------------------------------------------------------------------------- generator
+REAL_SD = [2, 1, 1, 0]
+REAL_IF = [1, 1, 0, 0]
+REAL_PAIRS = [[0, 1], [0, 2], [1, 3], [2, 3]]
+
+
+def gen_real(rng):
+    """family 'real': the container is filled with the grids and mortar grids of a 2-d Cartesian md-grid with two
+    crossing fractures, then 1-d grids are replaced by refinements, the 0-d grid by a copy, mortar grids are
+    refined through interface_map (real projection updates), subdomains are removed."""
+    sd_dims, derived, ops = list(REAL_SD), [], []
+    order = list(range(4))
+    rng.shuffle(order)
+    if rng.random() < 0.15:
+        order.pop()
+    present, pairs = [], {}
+    while order:
+        k = rng.choice([1, 2, 4])
+        gs, order = order[:k], order[k:]
+        ops.append({"op": "add_subdomains", "gs": gs, "single": rng.random() < 0.5})
+        present += gs
+    cur = {g: g for g in range(4)}  # original grid -> grid now standing for it
+    iorder = list(range(4))
+    rng.shuffle(iorder)
+    for i in iorder:
+        a, b = REAL_PAIRS[i]
+        if a in present and b in present and rng.random() < 0.93:
+            pr = [a, b] if rng.random() < 0.5 else [b, a]
+            ops.append({"op": "add_interface", "i": i, "pair": pr, "tuple": rng.random() < 0.8})
+            pairs[i] = (a, b)
+    for _ in range(rng.randint(0, 10)):
+        r = rng.random()
+        live = [g for g in present if sd_dims[g] < 2]
+        if r < 0.4 and live:
+            olds = rng.sample(live, min(len(live), rng.choice([1, 1, 2])))
+            sd_map = []
+            for o in olds:
+                derived.append(["refine" if sd_dims[o] == 1 else "copy", o])
+                sd_dims.append(sd_dims[o])
+                n = len(sd_dims) - 1
+                sd_map.append([o, n])
+                present[present.index(o)] = n
+            imap = rng.sample(sorted(pairs), rng.choice([0, 0, 1])) if pairs else []
+            ops.append({"op": "replace", "sd_map": sd_map, "intf_map": imap, "sd_none": False, "intf_none": rng.random() < 0.5})
+            for o, n in sd_map:
+                for i, p in list(pairs.items()):
+                    pairs[i] = tuple(n if x == o else x for x in p)
+        elif r < 0.55 and pairs:
+            imap = rng.sample(sorted(pairs), rng.choice([1, 1, 2]) if len(pairs) > 1 else 1)
+            ops.append({"op": "replace", "sd_map": [], "intf_map": imap, "sd_none": rng.random() < 0.5, "intf_none": False})
+        elif r < 0.75 and present:
+            g = rng.choice(present)
+            ops.append({"op": "remove_subdomain", "g": g})
+            present.remove(g)
+            for i in [i for i, p in pairs.items() if g in p]:
+                del pairs[i]
+        elif r < 0.85:
+            ops.append({"op": "q_sd", "g": rng.randrange(len(sd_dims))})
+        elif r < 0.9:
+            ops.append({"op": "fork"})
+        elif r < 0.95:
+            ops.append({"op": "remove_subdomain", "g": rng.randrange(len(sd_dims))} if rng.random() < 0.5 or not present
+                       else {"op": "add_subdomains", "gs": [rng.choice(present)], "single": True})
+            if ops[-1]["op"] == "remove_subdomain" and ops[-1]["g"] in present:
+                g = ops[-1]["g"]
+                present.remove(g)
+                for i in [i for i, p in pairs.items() if g in p]:
+                    del pairs[i]
+        elif pairs:
+            ops.append({"op": "q_pair", "i": rng.choice(sorted(pairs))})
+    return {"family": "real", "sd_dims": sd_dims, "if_dims": list(REAL_IF), "if_codims": [1, 1, 1, 1], "derived": derived, "ops": ops}
+
+
 def gen_case(rng, tier):
+    if rng.random() < 0.12:
+        return gen_real(rng)
     big = tier == "thorough"
     nops = rng.randint(1, 30) if rng.random() < 0.8 else rng.randint(1, 8)
     dim_w = rng.choice([[0, 1, 2, 3], [0, 1, 1, 2, 2, 3], [1, 2], [0, 0, 1], [2, 3, 3], [0, 1, 2, 3, 3]])
@@ -643,7 +779,7 @@ def _bad_op(rng, sd_dims, present, pairs, unused, new_grid, new_mortar, mortar_f
         if rng.random() < 0.5 and unused:
             gs.insert(rng.randrange(2), unused[-1])  # not consumed: the call is rejected as a whole
         return {"op": "add_subdomains", "gs": gs, "single": rng.random() < 0.5}
-    if kind == "dup":
+    if kind == "dup" and rng.random() < 0.3:
         g = unused[-1] if unused else new_grid(rng.randint(0, 3))
         if g not in unused:
             unused.append(g)
@@ -706,7 +842,7 @@ def nontrivial(case):
 
 
 def signature(case):
-    return json.dumps([case["sd_dims"], case["if_dims"], case["ops"]], sort_keys=True)
+    return json.dumps([case["family"], case["sd_dims"], case["if_dims"], case["ops"]], sort_keys=True)
 
 
 def shrink_candidates(case):
@@ -745,4 +881,6 @@ def stats(cases, impl_outs):
         c["max_present"] = max(c["max_present"], max([len(o["obs"]["sds"]) for o in out if isinstance(o, dict) and "obs" in o] or [0])) if isinstance(out, list) else c["max_present"]
     for d in (0, 1, 2, 3):
         c[f"grids_dim{d}"] = sum(case["sd_dims"].count(d) for case in cases)
+    c["family_real"] = sum(1 for case in cases if case.get("family") == "real")
+    c["histories_len_ge_20"] = sum(1 for case in cases if len(case["ops"]) >= 20)
     return {"counts": dict(c), "errors": dict(errs)}
